@@ -337,6 +337,7 @@ def check(ctx):
     ctx.rule("R3", "a directory change that can fail silently is not issued after the stack was mutated unless the target was validated or the result is checked", floor=2)
     ctx.rule("R4", "every pushd insertion reaches the $DIRSTACK_SIZE truncation before a normal return", floor=1)
     ctx.rule("R6", "after every interactive command the shell re-synchronises: _fix_cwd leaves $PWD alone only when it has compared the real paths of the process directory and $PWD (or could not determine the directory), and every exit of the command loop body passes it", floor=2)
+    ctx.rule("R7", "`dirs +N/-N` counts in the listing it prints (current directory first, then the stack): every len() that bounds or offsets the index into the listing is the length of the listing itself or of a list of the same length - never len(DIRSTACK), which is one shorter (from-the-right lookups would be off by one and N == stack size would wrap to the last entry)", floor=1)
     ctx.rule("R5", "every computed index into the directory stack is inside 0..len-1 for all counts admitted by the guards that dominate it (a negative index wraps silently: `except IndexError` is not a range check)", floor=4)
 
     # ------------------------------------------------------------------ R1
@@ -649,6 +650,7 @@ def check(ctx):
                 ctx.ob("R4", st, "the stack is cut to its first $DIRSTACK_SIZE entries (newest kept)", ok, key="pushd|truncation-shape", where=loc(t))
 
     _resync(ctx)
+    _dirs_counts_in_its_listing(ctx, ctx.repo.module(DS))
 
 
 def _resync(ctx):
@@ -705,6 +707,57 @@ def _resync(ctx):
         ok, path = cfg.must_pass(run, lambda m_: m_ in fix, exits=("exit",))
     ctx.ob("R6", f"{BS}:BaseShell.default", "every normal exit after run_compiled_code passes _fix_cwd()", ok, key="default|no-resync", where=loc(dfn), path=cfg.fmt_path(path) if path else None)
 
+
+
+def _dirs_counts_in_its_listing(ctx, mod):
+    fn0 = mod.func("dirs_fn")
+    fn = flat(ctx, fn0, 2, skip=("_change_working_directory",))
+    st = f"{DS}:dirs_fn"
+    defs = df.all_defs(fn)
+    # lists subscripted with a computed index
+    subs = [x for x in walk_local(fn) if isinstance(x, ast.Subscript) and isinstance(x.ctx, ast.Load) and isinstance(x.value, ast.Name) and not isinstance(x.slice, (ast.Constant, ast.Slice)) and any(isinstance(d.value, (ast.List, ast.ListComp, ast.BinOp, ast.Call, ast.Name)) for d in defs.get(x.value.id, []) if d.value is not None)]
+    if not subs:
+        raise AnalysisError(f"{st}: no computed index into the listing found")
+    n = 0
+    for sb in subs:
+        L = sb.value.id
+        fam = {L}
+        changed = True
+        while changed:
+            changed = False
+            for nm in list(fam):
+                for d in defs.get(nm, []):
+                    v = d.value
+                    src = None
+                    if isinstance(v, ast.ListComp) and len(v.generators) == 1 and not v.generators[0].ifs and isinstance(v.generators[0].iter, ast.Name):
+                        src = v.generators[0].iter.id
+                    elif isinstance(v, ast.Call) and call_name(v) in ("list", "tuple") and v.args and isinstance(v.args[0], ast.Call) and call_name(v.args[0]) == "map" and len(v.args[0].args) == 2 and isinstance(v.args[0].args[1], ast.Name):
+                        src = v.args[0].args[1].id
+                    elif isinstance(v, ast.Name):
+                        src = v.id
+                    if src and src not in fam:
+                        fam.add(src)
+                        changed = True
+        # everything the index depends on: its expression, the definitions of its names (calls with their arguments), and
+        # the guards on those names
+        dep_exprs = [sb.slice]
+        seen_, todo = set(), [x.id for x in ast.walk(sb.slice) if isinstance(x, ast.Name)]
+        while todo:
+            nm = todo.pop()
+            if nm in seen_ or nm in fam:
+                continue
+            seen_.add(nm)
+            for d in defs.get(nm, []):
+                if d.value is not None:
+                    dep_exprs.append(d.value)
+                    todo += [x.id for x in ast.walk(d.value) if isinstance(x, ast.Name)]
+        for t in [x.test for x in walk_local(fn) if isinstance(x, (ast.If, ast.While))]:
+            if seen_ & df.names_read(t):
+                dep_exprs.append(t)
+        lens = [c for e in dep_exprs for c in ast.walk(e) if isinstance(c, ast.Call) and call_name(c) == "len" and c.args and isinstance(c.args[0], ast.Name)]
+        foreign = [c for c in lens if c.args[0].id not in fam and (c.args[0].id.isupper() or "stack" in c.args[0].id.lower())]
+        n += 1
+        ctx.ob("R7", st, f"`{short(sb, 40)}`: every length the index is bounded by or counted from is the length of `{L}` ({sorted(fam)})", bool(lens) and not foreign, key="dirs_fn|index-counted-in-another-list", where=loc(foreign[0]) if foreign else loc(sb), detail=f"`{short(foreign[0], 30)}` is the length of another list" if foreign else ("no length bounds the index" if not lens else None))
 
 META = {
     "technique": "static analysis: who-may-call os.chdir / who-may-write $PWD over the whole package, CFG dominance and handler reachability in _change_working_directory, reachability of error returns after mutation, must-pass-through to the size truncation",
